@@ -425,6 +425,15 @@ func (fr *Frame) step(in ssa.Instruction, st *State, g Term) {
 	case *ssa.MakeSlice:
 		s := tc.sortOf(i.Type())
 		n := fr.term(i.Len, st)
+		if s == SStr || len(s.Deps) == 0 {
+			// make([]byte, n): byte slices are strings in this model - an arbitrary string of that length
+			v := x.fresh("mkbytes", s)
+			if s == SStr {
+				x.assume(g, Eq(slen(v), n))
+			}
+			fr.setReg(i, TV{T: v}, st)
+			break
+		}
 		fr.setReg(i, TV{T: SlMk(s, n, x.zero(s.Deps[0], nil))}, st)
 	case *ssa.MakeMap:
 		s := tc.sortOf(i.Type())
